@@ -42,13 +42,13 @@ Eff(schema, m) == CASE schema = "main" -> (IF HasNoneKey(m) THEN "s1" ELSE "main
                     [] OTHER -> schema
 
 \* ------------------------------------------------------------------ grammar
-Kinds == {"sel", "orm", "ins", "upd", "del", "lam", "ddl"}
+Kinds == {"sel", "orm", "ins", "upd", "del", "lam", "ddl", "txt"}
 Froms == {"a", "join", "outer", "s1", "xjoin"}
 Crits == {"none", "eq", "in", "eqand", "orin"}
 LamKinds == {"lscalar", "llist", "lcol", "ltab", "lmulti", "lwhere", "lcrit", "lexpr"}
 Wraps == {"none", "subq", "cte", "union", "exists"}
 Decos == {"none", "limit", "label", "distinct"}
-Opts == {"none", "selectin", "joined", "defer", "undefer", "ret"}
+Opts == {"none", "selectin", "joined", "defer", "undefer", "ret", "named", "pos"}
 \* well-formed shapes, per statement kind
 SelShapes == {s \in [k : {"sel"}, f : Froms, c : Crits, w : Wraps, d : Decos, o : {"none"}] :
                  (s.w = "union" => s.d \in {"none", "limit"}) /\ (s.w = "exists" => s.f \in {"a", "join", "outer"})}
@@ -59,7 +59,10 @@ UpdDelShapes == [k : {"upd", "del"}, f : {"a", "s1"}, c : Crits, w : {"none"}, d
 LamShapes == [k : {"lam"}, f : {"a"}, c : LamKinds, w : {"none"}, d : {"none"}, o : {"none"}]
 \* CREATE TABLE d (...) with the table declared without schema / in s1  (DDL has no cache key; executed under a schema map for C16)
 DdlShapes == [k : {"ddl"}, f : {"a", "s1"}, c : {"none"}, w : {"none"}, d : {"none"}, o : {"none"}]
-Shapes == SelShapes \cup OrmShapes \cup InsShapes \cup UpdDelShapes \cup LamShapes \cup DdlShapes
+\* TextualSelect(text("select id as q, x as r from a [where x = :a]"), [b.c.id, b.c.z], positional = (o = "pos")): the names in the text
+\* match none of the given columns, so looking a column up in a row works iff the statement is positional
+TxtShapes == [k : {"txt"}, f : {"a"}, c : {"none", "eq"}, w : {"none"}, d : {"none"}, o : {"named", "pos"}]
+Shapes == SelShapes \cup OrmShapes \cup InsShapes \cup UpdDelShapes \cup LamShapes \cup DdlShapes \cup TxtShapes
 WF(s) == s \in Shapes
 Name(s) == s.k \o "|" \o s.f \o "|" \o s.c \o "|" \o s.w \o "|" \o s.d \o "|" \o s.o
 \* shapes that may be executed under a schema map: Core statements over a / s1.a only (b exists only unqualified)
@@ -87,7 +90,8 @@ UsesList(s) == s.c \in {"in", "orin", "llist", "lwhere"}
 \* `col == None` renders IS NULL: a different statement structure, hence a different cache key (insert VALUES keep a bind)
 \* ("lexpr": the closure holds the finished criterion `a.c.x == v`, built OUTSIDE the lambda - a None there is an honest IS NULL)
 Dev(s, v) == LamNoneBind /\ s.k = "lam" /\ UsesEq(s) /\ s.c # "lexpr" /\ v.a = 0          \* the named deviation applies to this execution
-Struct(s, v) == IF s.k # "ins" /\ UsesEq(s) /\ v.a = 0 /\ ~Dev(s, v) THEN "null" ELSE "val"
+\* (insert VALUES and a textual `x = :a` keep the bind whatever the value)
+Struct(s, v) == IF s.k \notin {"ins", "txt"} /\ UsesEq(s) /\ v.a = 0 /\ ~Dev(s, v) THEN "null" ELSE "val"
 InLen(s, v) == IF UsesList(s) THEN Len(v.l) ELSE 0 - 1
 \* closure values of a lambda that are not literals take part in the cache key
 LamKey(s, v) == CASE s.c \in {"lcol", "lmulti"} -> v.col [] s.c = "ltab" -> v.tab [] OTHER -> ""
@@ -95,7 +99,7 @@ LamKey(s, v) == CASE s.c \in {"lcol", "lmulti"} -> v.col [] s.c = "ltab" -> v.ta
 \* ------------------------------------------------------------------ rows
 ColVal(col, i) == IF col = "x" THEN X[i] ELSE Y[i]
 Sat(s, v, i) ==
-   CASE Dev(s, v) -> FALSE                      \* x = NULL is never true
+   CASE Dev(s, v) \/ (s.k = "txt" /\ s.c = "eq" /\ v.a = 0) -> FALSE                      \* x = NULL is never true
      [] s.c = "none" -> TRUE
      [] s.c \in {"eq", "lscalar", "ltab", "lcrit", "lexpr"} -> X[i] = v.a
      [] s.c \in {"in", "llist"} -> X[i] # 0 /\ X[i] \in Range(v.l)
@@ -121,7 +125,7 @@ SelIds(s, v) == LET q == Limited(s, v, Bag(Mult(s, v), 1)) IN IF s.o = "joined" 
 Matching(s, v) == Bag([i \in 1..NRows |-> IF Sat(s, v, i) THEN 1 ELSE 0], 1)
 Ids(s, v, m) ==
    LET off == Off(Eff(RowSchema(s, v), m)) IN
-   CASE s.k \in {"sel", "orm", "lam"} -> Shift(SelIds(s, v), off)
+   CASE s.k \in {"sel", "orm", "lam", "txt"} -> Shift(SelIds(s, v), off)
      [] s.k = "ddl" -> <<off>>                                     \* observable of CREATE TABLE: the file in which table d exists afterwards
      [] s.k = "ins" -> IF s.o = "ret" THEN <<NRows + 1 + off>> ELSE <<>>
      [] OTHER -> IF s.o = "ret" THEN Shift(Matching(s, v), off) ELSE <<>>
@@ -141,6 +145,7 @@ RowCount(s, v) == CASE s.k = "ins" /\ s.o = "none" -> 1
 NullBind == 0 - 1                                       \* a bound NULL
 EqB(v) == IF v.a = 0 THEN <<>> ELSE <<v.a>>
 CritB(s, v) == CASE Dev(s, v) -> IF s.c = "lmulti" THEN <<NullBind, v.b>> ELSE <<NullBind>>
+                 [] s.k = "txt" /\ s.c = "eq" -> IF v.a = 0 THEN <<NullBind>> ELSE <<v.a>>
                  [] s.c = "none" -> <<>> [] s.c = "eq" -> EqB(v) [] s.c = "in" -> v.l
                  [] s.c = "eqand" -> EqB(v) \o <<v.b>> [] s.c = "orin" -> EqB(v) \o v.l
                  [] s.c \in {"lscalar", "ltab", "lcol", "lcrit", "lexpr"} -> EqB(v)
@@ -159,6 +164,7 @@ Binds(s, v) ==
 \* parameters of the statement in cache-key traversal order; each element is a sequence (an expanding IN list is ONE parameter)
 EqX(v) == IF v.a = 0 THEN <<>> ELSE << <<v.a>> >>
 CritX(s, v) == CASE Dev(s, v) -> IF s.c = "lmulti" THEN << <<NullBind>>, <<v.b>> >> ELSE << <<NullBind>> >>
+                 [] s.k = "txt" /\ s.c = "eq" -> IF v.a = 0 THEN << <<NullBind>> >> ELSE << <<v.a>> >>
                  [] s.c = "none" -> <<>> [] s.c = "eq" -> EqX(v) [] s.c = "in" -> << v.l >>
                  [] s.c = "eqand" -> EqX(v) \o << <<v.b>> >> [] s.c = "orin" -> EqX(v) \o << v.l >>
                  [] s.c \in {"lscalar", "ltab", "lcol", "lcrit", "lexpr"} -> EqX(v)
@@ -195,7 +201,9 @@ Secondary(s, v) == IF s.k = "orm" /\ s.o = "selectin" /\ SelIds(s, v) # <<>> THE
 SqlClass(s, v, m) == [sh |-> Name(s), st |-> Struct(s, v), lk |-> LamKey(s, v), n |-> InLen(s, v),
                       e0 |-> IF UsesNoneSchema(s) /\ ~(s.c = "ltab" /\ v.tab # "a") THEN Eff("main", m) ELSE "-",
                       e1 |-> IF s.f \in {"s1", "xjoin"} THEN Eff("s1", m) ELSE IF s.c = "ltab" /\ v.tab # "a" THEN v.tab ELSE "-"]
-F(s, v, m) == [sql |-> SqlClass(s, v, m), binds |-> Binds(s, v), ids |-> Ids(s, v, m), ids2 |-> Ids2(s, v, m), c2 |-> HasIds2(s), rc |-> RowCount(s, v),
+\* looking up a row value by the column object given to the statement (C02: part of what "the same result rows" means)
+RowLookup(s, v) == IF s.k # "txt" \/ SelIds(s, v) = <<>> THEN "-" ELSE IF s.o = "pos" THEN "ok" ELSE "NoSuchColumnError"
+F(s, v, m) == [sql |-> SqlClass(s, v, m), lk |-> RowLookup(s, v), binds |-> Binds(s, v), ids |-> Ids(s, v, m), ids2 |-> Ids2(s, v, m), c2 |-> HasIds2(s), rc |-> RowCount(s, v),
                sec |-> Secondary(s, v), dev |-> Dev(s, v)]
 
 =============================================================================
